@@ -827,7 +827,15 @@ def register(an):
         if a is not None and b is not None:
             al, au, bl, bu = st.lb(a), st.ub(a), st.lb(b), st.ub(b)
             if None not in (al, au, bl, bu) and al >= 0 and bl > 0:
-                return ('int', an.fresh(st, ty, -(-al // bu), -(-au // bl), 'divceil'))
+                lo_, hi_ = -(-al // bu), -(-au // bl)
+                if lo_ == hi_:
+                    return V_const(lo_)
+                q = an.fresh(st, ty, lo_, hi_, 'divceil')
+                if b.is_const() and b.k > 1 and len(st.cons) < 100:
+                    # q = ceil(a / c):  a <= c*q <= a + c - 1
+                    st.cons.add(a - q.scale(b.k))
+                    st.cons.add(q.scale(b.k) - a - Lin.const(b.k - 1))
+                return ('int', q)
         return None
 
     @model('core::convert::From::from', 'core::convert::Into::into')
